@@ -38,6 +38,13 @@ GROUPS = {
     "p": lambda p, t: t >> p.group_by(t.p),
     "computed": lambda p, t: t >> p.mutate(k=t.g % 2) >> p.group_by(p.C.k),
     "add": lambda p, t: t >> p.group_by(t.g) >> p.group_by(t.p, add=True),
+    # keys computed from literals only in their *values*: a case expression whose branches are all literals but whose
+    # condition reads a column (round 5, C04-F), a comparison, a constant column (one group iff any row is present)
+    "case_lits": lambda p, t: t >> p.mutate(k=p.when(t.g > 0).then(1).otherwise(0)) >> p.group_by(p.C.k),
+    "case_lits_noelse": lambda p, t: t >> p.mutate(k=p.when(t.p).then(7)) >> p.group_by(p.C.k),
+    "cmp_key": lambda p, t: t >> p.mutate(k=t.g >= 1) >> p.group_by(p.C.k),
+    "const_key": lambda p, t: t >> p.mutate(k=5) >> p.group_by(p.C.k),
+    "const_and_col": lambda p, t: t >> p.mutate(k=5) >> p.group_by(p.C.k, t.g),
 }
 
 
@@ -48,6 +55,8 @@ def templates(cfg):
             if cfg.tier == "quick" and gname in ("g_p", "add") and aname not in ("sum", "count_star", "min", "any"):
                 continue
             if cfg.tier == "quick" and gname == "computed" and aname not in ("sum", "count_col", "mean", "all", "sum_filter"):
+                continue
+            if cfg.tier == "quick" and gname in ("case_lits", "case_lits_noelse", "cmp_key", "const_key", "const_and_col") and aname not in ("sum", "count_star", "max"):
                 continue
             tags = ("nonlinear",) if gname == "computed" or aname == "mean_times" else ()
             prog = lambda p, t, g=g, a=a: g(p, t) >> p.summarize(y=a(p, t))  # noqa: E731
@@ -98,6 +107,9 @@ def templates(cfg):
     from . import temporal
 
     out += temporal.templates_for("C04", cfg)
+    from . import gen
+
+    out += gen.templates_for("C04", cfg)  # compositions drawn from the typed pipeline grammar (pv/corpora/gen.py)
     return out
 
 
